@@ -296,6 +296,15 @@ fn walk(dir: &Path, base: &Path, out: &mut BTreeMap<String, String>) {
     }
 }
 
+/// state digest of an arbitrary repository in a sandbox (shared with C07)
+pub fn repo_digest(sb: &mut Sandbox, repo: &Path) -> serde_json::Value {
+    let mut t = Twin { sb: Sandbox::placeholder(), repo: repo.to_path_buf(), remote: repo.join(".git/nonexistent-remote"), clones: 0 };
+    std::mem::swap(&mut t.sb, sb);
+    let v = digest(&mut t);
+    std::mem::swap(&mut t.sb, sb);
+    v
+}
+
 fn digest(t: &mut Twin) -> serde_json::Value {
     let repo = t.repo.clone();
     let g = |t: &mut Twin, args: &[&str]| -> String { t.sb.real_git(&repo, args).out() };
